@@ -816,12 +816,21 @@ func (m *MW) StepStaleRelease() {
 	if SumH(ins) <= fee+2 {
 		return
 	}
-	inv2 := m.W.LN.NewExternalInvoice(((SumH(ins) - fee) / 2) * 1000)
-	m.W.LN.Scripts[inv2.Hash] = &LNScript{Pay: "pending"}
+	// the new attempt names another quote - or the very same one (Lightning allows a failed
+	// payment hash to be tried again): then the stale poll's release names the right quote
+	sameQuote := m.T.Chance("stale.samequote", 1, 3)
 	var q2 *MeltQuote
-	m.rc.Quietly(func() { q2, _ = m.Atk.ReqMeltQuote(mint, inv2.Bolt11, 0) })
-	if q2 == nil || q2.Amount+q2.Reserve+fee > SumH(ins) {
-		return
+	if sameQuote {
+		q2 = pm.Q
+		m.W.LN.Scripts[pm.Q.Hash] = &LNScript{Pay: "pending"}
+		m.rc.S.Probe("stale_release_same_quote")
+	} else {
+		inv2 := m.W.LN.NewExternalInvoice(((SumH(ins) - fee) / 2) * 1000)
+		m.W.LN.Scripts[inv2.Hash] = &LNScript{Pay: "pending"}
+		m.rc.Quietly(func() { q2, _ = m.Atk.ReqMeltQuote(mint, inv2.Bolt11, 0) })
+		if q2 == nil || q2.Amount+q2.Reserve+fee > SumH(ins) {
+			return
+		}
 	}
 	m.begin()
 	for i := 0; i < 2; i++ {
@@ -857,7 +866,9 @@ func (m *MW) StepStaleRelease() {
 	m.rc.S.Probe("stale_release_episode")
 	if locked {
 		m.rc.S.Probe("stale_release_relocked")
-		m.Pending = append(m.Pending, &PendingMelt{Mint: mint, Q: q2, Ins: ins, Key: mint + "|" + q2.Hash})
+		if !sameQuote {
+			m.Pending = append(m.Pending, &PendingMelt{Mint: mint, Q: q2, Ins: ins, Key: mint + "|" + q2.Hash})
+		}
 	}
 	m.settlePending()
 	m.rc.Nontrivial = true
